@@ -420,7 +420,7 @@ TREE_MUTATIONS = ["unknown_tag", "ext_not_allowed", "ext_existing_term", "requir
                   "duplicate_group", "taggroup_tag_at_top", "toplevel_group_nested", "definition_in_string",
                   "unique_twice", "empty_group", "onset_extra_group", "onset_no_def", "offset_with_group",
                   "duration_two_groups", "ext_bad_char", "toplevel_group_nested_twin",
-                  "duplicate_among_same_base", "two_toplevel_tags_in_group"]
+                  "duplicate_among_same_base", "two_toplevel_tags_in_group", "empty_group_twice"]
 TEXT_MUTATIONS = ["paren_extra_open", "paren_extra_close", "paren_removed", "paren_wrong_order", "double_comma",
                   "leading_comma", "trailing_comma", "comma_missing_before_group", "comma_missing_after_group",
                   "forbidden_char"]
@@ -679,6 +679,13 @@ def mutated(draw, ann, kinds=None, start=0):
         expect = "TAG_NOT_UNIQUE"
     elif kind == "empty_group":
         _insert_somewhere(draw, tree, make_group([]))
+        expect = "TAG_EMPTY"
+    elif kind == "empty_group_twice":
+        # the same fault twice in one list: two groups holding no tag at all (empty, or nothing but empty groups)
+        path, lst = draw(st.sampled_from(list(all_groups(tree))))
+        deep = draw(st.booleans())
+        for _ in range(2):
+            lst.insert(draw(st.integers(0, len(lst))), make_group([make_group([])] if deep else []))
         expect = "TAG_EMPTY"
     elif kind == "duplicate_among_same_base":
         # Node/v1, Node/v2, Node/v1 in one list: the two equal tags are separated by a same-base tag
